@@ -1,10 +1,14 @@
 """C06 -- Keyed/Indexed reconcile the DOM to the new list, preserving retained nodes (DESIGN.md 5.C06).
 Part 1 (this file): the node-diffing routine reconcile_fragments through the verif hook, on the in-process DOM.
-Part 2: chains of list updates through the real Keyed / Indexed components are exercised by C05's check."""
+Part 2: chains of list updates through the real Keyed / Indexed components on the in-process DOM: after every update the nodes
+between the list's boundaries are the rendered items of the new list (= a fresh render), retained items keep their nodes, nodes
+outside the region keep theirs."""
 import itertools
 import random
 
+import c05
 import domlib
+import viewgen
 import vlib
 from vlib import glist
 
@@ -66,6 +70,140 @@ def gen(tier, rng):
             b = list(dict.fromkeys(b))
         cases.append(([250], a + [END], b + [END], [251]))
     return cases
+
+
+# ---- part 2: chains of updates through Keyed / Indexed ----
+def labels(view, st, ctx=(), item=None):
+    """one label per entry of the driver's structured node dump (document order, 'e' = end of element): nodes carrying the same
+    label before and after an update must be the same DOM node. Items are labelled by key (Keyed) or by position and value (Indexed)."""
+    k = view[0]
+    out = []
+    if k == "el":
+        out.append(ctx + ("E",))
+        if view[1] not in viewgen.VOID:
+            for i, c in enumerate(view[3]):
+                out += labels(c, st, ctx + (i,), item)
+        out.append(None)
+    elif k in ("text", "dyntext", "item"):
+        out.append(ctx + ("T",))
+    elif k in ("dyn", "show"):
+        on = bool(st["b"].get(view[1]))
+        out.append(ctx + ("C0",))
+        kids = (view[2] if on else view[3]) if k == "dyn" else (view[2] if on else [])
+        for i, c in enumerate(kids):
+            out += labels(c, st, ctx + (("R", on), i), item)
+        out.append(ctx + ("C1",))
+    elif k == "list":
+        out.append(ctx + ("C0",))
+        for pos, it in enumerate(st["l"].get(view[2], [])):
+            who = ("K", it) if view[1] else ("I", pos, it)
+            for i, c in enumerate(view[3]):
+                out += labels(c, st, ctx + (who, i), it)
+        out.append(ctx + ("C1",))
+    else:
+        for i, c in enumerate(view[1]):
+            out += labels(c, st, ctx + (i,), item)
+    return out
+
+
+def retained_failures(view, st_before, st_after, nodes_before, nodes_after):
+    lb, la = labels(view, st_before), labels(view, st_after)
+    if len(lb) != len(nodes_before) or len(la) != len(nodes_after):
+        return []                      # a structural difference is reported by the fresh-render oracle
+    ids_b = {l: n[1] for l, n in zip(lb, nodes_before) if l is not None}
+    bad = [(l, ids_b[l], n[1]) for l, n in zip(la, nodes_after) if l is not None and l in ids_b and ids_b[l] != n[1]]
+    if bad:
+        return [{"what": "a retained item (same key / same position and value) or a node outside the list did not keep its DOM node",
+                 "label": str(bad[0][0]), "node_before": bad[0][1], "node_after": bad[0][2], "count": len(bad)}]
+    return []
+
+
+def list_views():
+    E = lambda tag, *kids: ("el", tag, [], list(kids))
+    T = lambda s: ("text", s)
+    tm1 = [E("li", ("item",))]
+    tm2 = [E("li", ("item",)), T("-")]
+    tm3 = [E("li", E("b", ("item",)), ("dyntext", 0))]
+    out = []
+    for keyed in (True, False):
+        L = lambda tmpl, sig=0: ("list", keyed, sig, tmpl)
+        out += [
+            E("ul", L(tm1)),
+            ("frag", [T("pre"), L(tm1), E("span", T("post"))]),
+            E("div", E("i", T("a")), L(tm2), T("z")),
+            E("div", L(tm3)),
+            E("div", L(tm1, 0), L(tm1, 1)),                     # two lists side by side: each other's boundary
+            E("div", ("show", 0, [E("p", T("s"))]), L(tm1)),
+        ]
+    return out
+
+
+def arrangements_upto(keys, n):
+    return [list(p) for k in range(n + 1) for p in itertools.permutations(keys, k)]
+
+
+def gen_chains(tier, rng):
+    views = list_views()
+    cases = []
+    small = arrangements_upto([1, 2, 3], 3)
+    if tier == "thorough":
+        chains = [(a, b, c) for a in small for b in small for c in small]
+        for ch in chains:
+            cases.append((views[0], ch))
+    n = 700 if tier == "quick" else 6000
+    for _ in range(n):
+        v = rng.choice(views)
+        m = rng.randint(2, 4)
+        ch = []
+        cur = rng.sample(range(1, 6), rng.randint(0, 4))
+        ch.append(cur)
+        for _ in range(m):
+            c = rng.random()
+            nxt = list(cur)
+            if c < 0.2 and nxt:
+                nxt.pop(rng.randrange(len(nxt)))
+            elif c < 0.4:
+                fresh = [x for x in range(1, 10) if x not in nxt]
+                nxt.insert(rng.randint(0, len(nxt)), rng.choice(fresh))
+            elif c < 0.55 and nxt:
+                fresh = [x for x in range(1, 10) if x not in nxt]
+                nxt[rng.randrange(len(nxt))] = rng.choice(fresh)
+            elif c < 0.7:
+                rng.shuffle(nxt)
+            elif c < 0.8:
+                nxt = []
+            else:
+                nxt = rng.sample(range(1, 10), rng.randint(0, 5))
+            ch.append(nxt)
+            cur = nxt
+        cases.append((v, tuple(ch)))
+    out = []
+    for v, ch in cases:
+        sigs = sorted(set(x[2] for x in _walk(v) if x[0] == "list"))
+        st = {"s": {0: "x"}, "b": {0: True}, "l": {k: list(ch[0]) for k in sigs}}
+        ops = []
+        for i, l in enumerate(ch[1:]):
+            ops.append(("l", sigs[i % len(sigs)] if len(sigs) > 1 else sigs[0], list(l)))
+        out.append((st, v, ops))
+    return out
+
+
+def _walk(v):
+    yield v
+    if v[0] == "el":
+        kids = v[3]
+    elif v[0] == "dyn":
+        kids = v[2] + v[3]
+    elif v[0] == "show":
+        kids = v[2]
+    elif v[0] == "list":
+        kids = v[3]
+    elif v[0] in ("frag", "comp", "nohydrate", "nossr"):
+        kids = v[1]
+    else:
+        kids = []
+    for c in kids:
+        yield from _walk(c)
 
 
 def oracle(pre, a, b, post, line):
@@ -135,6 +273,36 @@ def main(argv):
     chk.obligation("oracle: children = pre ++ b ++ post, leavers detached, nothing outside the region touched", not orfail, str(orfail[:2]))
     for i in (0, len(cases) // 2, len(cases) - 1):
         chk.sample({"case": cases[i], "impl": impl[i][0]})
+    # ---- part 2 ----
+    chains = gen_chains(a_.tier, rng)
+    clines = ["(client %s %s (%s))" % (viewgen.sx_state(st), viewgen.sx_view(v), " ".join(c05.sx_op(o) for o in ops)) for st, v, ops in chains]
+    try:
+        cimpl = domlib.run(binp, clines)
+    except RuntimeError as e:
+        chk.violation({"property": PID, "broken": "driver run (list chains)", "detail": str(e)}, no_input=True)
+        return chk.finish()
+    chainfail = c05.evaluate(chk, chains, cimpl, clines)
+    for (st, v, ops), out, line in zip(chains, cimpl, clines):
+        if out[0].startswith("PANIC"):
+            continue
+        cur, prev = st, None
+        for k, l in enumerate(out):
+            parts = dict(p.split(" ", 1) if " " in p else (p, "") for p in l.split(" ; "))
+            nodes = c05.parse_nodes(parts["nodes"])
+            if k > 0:
+                nxt = c05.apply_op(cur, ops[k - 1])
+                f = retained_failures(v, cur, nxt, prev, nodes)
+                if f:
+                    f[0].update({"scenario": line, "step": k})
+                    chainfail.append(f[0])
+                    break
+                cur = nxt
+            prev = nodes
+    chk.obligation("oracle (chains of updates through Keyed / Indexed, %d scenarios): region = fresh render of the new list, retained items and "
+                   "outside nodes keep their DOM nodes" % len(chains), not chainfail, str(chainfail[:1]))
+    for o in chainfail:
+        o.setdefault("what", "list chain")
+    orfail = [dict(o, pre=[], a=[], b=[], post=[]) if "pre" not in o else o for o in orfail] + chainfail
     if orfail:
         orfail.sort(key=lambda o: len(str(o)))
         chk.violation({"property": PID, "kind": "oracle failure on implementation output", "input": orfail[0], "count": len(orfail), "also_broken": broken})
